@@ -11,7 +11,7 @@
 //   h_p21safe fn
 //       stdin lines:  <idx> <fn> <hex bytes> [<int arg>]    ->   "R <idx> ..."  (same line protocol as lean exe m_c05)
 //       functions: readreal skipinst findstart readcomment toksep findheader recover exportlist
-//                  strupper strlower strconst pretty entnode entname subsuper hdrkw
+//                  strupper strlower strconst pretty entnode entname subsuper hdrkw readdata1
 //
 // Library chatter on cout/cerr is silenced (rdbuf -> null); sanitizer reports go to fd 2 untouched.
 #include <cstdio>
@@ -54,6 +54,8 @@ struct SF : public STEPfile {
     using STEPfile::ReadHeader;
     using STEPfile::CreateScopeInstances;
     using STEPfile::ReadScopeInstances;
+    using STEPfile::ReadData1;
+    int notCreated() const { return _entsNotCreated; }
 };
 
 static bool ordinary( int s ) {
@@ -203,6 +205,15 @@ static int run_fn() {
             SDAI_Application_instance * o = sf.CreateSubSuperInstance( in, 1, e );
             r << "ok obj=" << ( ( o && o != ENTITY_NULL ) ? 1 : 0 );
             if( o && o != ENTITY_NULL ) delete o;
+        } else if( fn == "readdata1" ) {
+            // pass 1 of the DATA section (the stream is positioned after "DATA;")
+            std::istringstream in( bytes );
+            InstMgr im; SF sf( reg, im );
+            std::istringstream hdr( "HEADER;FILE_DESCRIPTION((''),'2;1');FILE_NAME('','',(''),(''),'','','');FILE_SCHEMA(('C05A'));ENDSEC;" );
+            sf.ReadHeader( hdr );
+            int cnt = sf.ReadData1( in );
+            r << "ok cnt=" << cnt << " nc=" << sf.notCreated() << " " << obs( in );
+            im.DeleteInstances();
         } else if( fn == "hdrkw" ) {
             // a header section whose first entity keyword has <arg> characters
             std::string h = "HEADER;\n" + std::string( ( size_t )arg, 'K' ) + "(());\nENDSEC;\n";
